@@ -188,10 +188,111 @@ func ruleT1(p *Prog) *RuleResult {
 			}
 		}
 	}
+	// reslicing one of the receiver's own arrays up to a decoded length needs a capacity test on that very array
+	for _, f := range p.sourceFns() {
+		if !inScope(f) || len(f.Params) == 0 {
+			continue
+		}
+		n := 0
+		for _, b := range f.Blocks {
+			for _, ins := range b.Instrs {
+				sl, ok := ins.(*ssa.Slice)
+				if !ok || sl.High == nil {
+					continue
+				}
+				fld, isField := loadedField(sl.X)
+				if !isField {
+					continue
+				}
+				var origins []ssa.Value
+				decodedOrigins(sl.High, map[ssa.Value]bool{}, &origins)
+				if len(origins) == 0 {
+					continue
+				}
+				n++
+				c := fmt.Sprintf("%s|reslice %s#%d", fname(f), fld.name, n)
+				if capGuard(sl, fld, b) {
+					res.ok(c, p.ipos(sl), "guarded by cap("+fld.name+") >= the decoded length")
+				} else {
+					res.bad(c, p.ipos(sl), "the slice "+fld.name+" is extended to a length decoded from the input without a dominating test of cap("+fld.name+") against that length (a test on a sibling array does not count: their capacities grow independently)")
+				}
+			}
+		}
+	}
 	for _, s := range decodeScope {
 		if !found[s] {
 			res.undecided(s, "-", "decoder not found")
 		}
 	}
 	return res
+}
+
+type fieldRef struct {
+	x    ssa.Value
+	f    int
+	name string
+}
+
+func loadedField(v ssa.Value) (fieldRef, bool) {
+	u, ok := v.(*ssa.UnOp)
+	if !ok || u.Op != token.MUL {
+		return fieldRef{}, false
+	}
+	fa, ok := u.X.(*ssa.FieldAddr)
+	if !ok {
+		return fieldRef{}, false
+	}
+	return fieldRef{fa.X, fa.Field, fieldName(fa.X.Type(), fa.Field)}, true
+}
+
+func stripConv(v ssa.Value) ssa.Value {
+	for {
+		c, ok := v.(*ssa.Convert)
+		if !ok {
+			return v
+		}
+		v = c.X
+	}
+}
+
+// capGuard: block b is dominated by the true edge of cap(<same field>) >= high (or the false edge of <).
+func capGuard(sl *ssa.Slice, fld fieldRef, b *ssa.BasicBlock) bool {
+	high := stripConv(sl.High)
+	for d := b.Idom(); d != nil; d = d.Idom() {
+		ifi, ok := d.Instrs[len(d.Instrs)-1].(*ssa.If)
+		if !ok {
+			continue
+		}
+		bo, ok := ifi.Cond.(*ssa.BinOp)
+		if !ok {
+			continue
+		}
+		isCap := func(v ssa.Value) bool {
+			c, ok := v.(*ssa.Call)
+			if !ok {
+				return false
+			}
+			bi, ok := c.Call.Value.(*ssa.Builtin)
+			if !ok || bi.Name() != "cap" {
+				return false
+			}
+			g, ok := loadedField(c.Call.Args[0])
+			return ok && g.x == fld.x && g.f == fld.f
+		}
+		trueEdge := -1
+		switch {
+		case bo.Op == token.GEQ && isCap(bo.X) && stripConv(bo.Y) == high:
+			trueEdge = 0
+		case bo.Op == token.LEQ && isCap(bo.Y) && stripConv(bo.X) == high:
+			trueEdge = 0
+		case bo.Op == token.LSS && isCap(bo.X) && stripConv(bo.Y) == high:
+			trueEdge = 1
+		case bo.Op == token.GTR && isCap(bo.Y) && stripConv(bo.X) == high:
+			trueEdge = 1
+		}
+		if trueEdge >= 0 && dominatedByEdge(d, trueEdge, b) {
+			return true
+		}
+	}
+	return false
 }
